@@ -52,6 +52,8 @@ FIXED = {
     's_o8':      'C[_, C[_,_], Op[_,_,_,_,_,_,_,_]]',
     # resumable / selectable / composite regions resolved through a utilitarian or random parent
     's_ures':    'U[R[_,_,_], N[R[_,_], S[_,_,_], _], C[_,R[_,_,_]], _]',
+    # two composite levels between an orthogonal region and region destinations (the third ancestor loop of requestImmediate meets an orthogonal region)
+    's_occ':     'O[C[_, C[_, R[_,_], C[_,_]]], C[_, O[C[_, C[_,_]], _]]]',
 }
 
 
